@@ -444,8 +444,60 @@ func runC15(r *Run) {
 		}
 		r.Floor("R8", "error-returning state-changing keeper calls in consensus scope", nCalls, 100)
 	}
+	r.Rule("R9", "PATH.send-wrapper-rejects-blocked-recipients: Haqq's bank message server replaces the SDK's MsgSend handler, so it must repeat the SDK's recipient check: every success exit of msgServer.Send is preceded by a BlockedAddr(recipient) test whose true edge fails — in Send itself, or in a helper all of whose success paths make the test (whatever the erc20 switch says). Module accounts (staking pools, distribution) cannot be credited by a plain send")
+	if sd, ok := P.FnOK("(x/bank/keeper.msgServer).Send"); ok {
+		isBlockedCall := func(ci CallInfo) bool { return ci.Name == "BlockedAddr" }
+		// helpers of the package that test the recipient on every success path
+		always := map[*ssa.Function]bool{}
+		for _, fn := range P.Funcs {
+			if fnPkgPath(fn) != fnPkgPath(sd) || fn == sd || fn.Blocks == nil {
+				continue
+			}
+			if len(findCalls(fn, isBlockedCall)) == 0 {
+				continue
+			}
+			if w := (PathQuery{Fn: fn, Block: isCallMatching(isBlockedCall), Target: isSuccessExit}).Search(); w == nil {
+				always[fn] = true
+			}
+		}
+		isCheck := func(in ssa.Instruction) bool {
+			c, ok := in.(ssa.CallInstruction)
+			if !ok {
+				return false
+			}
+			ci := callInfo(c)
+			return isBlockedCall(ci) || (ci.Static != nil && always[ci.Static])
+		}
+		w := PathQuery{Fn: sd, Block: isCheck, Target: isSuccessExit}.Search()
+		// the true edge of a BlockedAddr test reaches no success exit (in the function that makes it)
+		failOK := true
+		for _, fn := range append([]*ssa.Function{sd}, keysOfFn(always)...) {
+			t, _ := guardPassEdges(fn, func(cond ssa.Value) (bool, bool) {
+				c, ok := cond.(*ssa.Call)
+				return true, ok && callInfo(c).Name == "BlockedAddr"
+			})
+			for _, e := range t {
+				if w2 := (PathQuery{Fn: fn, StartBlock: e.From.Succs[e.Succ], Target: isSuccessExit}).Search(); w2 != nil {
+					failOK = false
+				}
+			}
+		}
+		r.Check(w == nil && failOK, "R9", fnID(sd)+"#blocked-recipient-rejected", P.Pos(fnPos(sd)), "every success path tests BlockedAddr(to) and a blocked recipient fails",
+			"the bank MsgSend wrapper can succeed without having tested the recipient against the blocked addresses (the test sits behind an early return or only on some branch): a plain send credits a module account, and the module's records no longer match its balance", P.witness(w)...)
+	} else {
+		r.Bad("R9", "anchor/x/bank msgServer.Send", "", "not found")
+	}
 	r.Rule("R7", "see C12 R5 (same rule code): every module account of maccPerms is a blocked address — the distribution, staking-pool and gov accounts cannot receive plain transfers, which their invariants (module balance = recorded amounts) need")
 	checkBlockedAddrs(r, "R7", "distribution")
 	r.Import("R4/C14.", []string{"R2"}, runC14)
 	r.Import("R5/C02.", []string{"R3"}, runC02)
+}
+
+func keysOfFn(m map[*ssa.Function]bool) []*ssa.Function {
+	var out []*ssa.Function
+	for f := range m {
+		out = append(out, f)
+	}
+	sort.Slice(out, func(i, j int) bool { return fnID(out[i]) < fnID(out[j]) })
+	return out
 }
